@@ -24,8 +24,26 @@ func H_Rollback() {
 	db := wmptlib.NewMemStore()
 	t := wmpt.New(nil, db)
 	ref := wmptlib.NewRef()
+	// known-finding region (KF-C11-3 seen through rollback): two different keys were given
+	// identical (value, weight) at some time and share one content-addressed value node
+	type hist struct {
+		key int
+		tag byte
+		pb  byte
+	}
+	var written []hist
+	dup := false
+	note := func(i int, tag, pb byte) {
+		for _, h := range written {
+			if h.key != i && h.tag == tag {
+				dup = vp.Or(dup, h.pb == pb)
+			}
+		}
+		written = append(written, hist{i, tag, pb})
+	}
 	for i := 0; i < nk; i++ {
 		pb := vp.Byte("payload")
+		note(i, 0x5a, pb)
 		v := []byte{pb, 0x5a}
 		w := uint64(pb) + 1
 		if err := t.Update(pool[i], v, w); err != nil {
@@ -50,6 +68,25 @@ func H_Rollback() {
 	if !commit(levels[vp.Choose("cplevel", len(levels))]) {
 		return
 	}
+	if vp.Param("pregc", 0) == 1 {
+		// an earlier round before the checkpoint: one value changed, committed, one GC pass
+		// (so that the next pass has something staged for physical deletion)
+		pb := vp.Byte("prepayload")
+		note(0, 0x7c, pb)
+		v := []byte{pb, 0x7c}
+		if err := t.Update(pool[0], v, uint64(pb)+1); err != nil {
+			panic(err)
+		}
+		ref.Put(pool[0], v, uint64(pb)+1)
+		if !commit(0) {
+			return
+		}
+		var err error
+		if vp.NoPanic("C13.nopanic", func() { err = t.DeleteNodes() }) {
+			return
+		}
+		vp.Assert("C13.gc-ok", err == nil)
+	}
 	// checkpoint
 	cpRoot := append([]byte{}, t.Root()...)
 	cpWeight := t.Weight()
@@ -71,6 +108,7 @@ func H_Rollback() {
 		switch kind {
 		case 0: // new or changed value
 			pb := vp.Byte("cpayload")
+			note(i, 0x6b, pb)
 			v := []byte{pb, 0x6b}
 			pan = vp.NoPanic("C13.nopanic", func() { err = t.Update(key, v, uint64(pb)+1) })
 			ref.Put(key, v, uint64(pb)+1)
@@ -107,8 +145,25 @@ func H_Rollback() {
 	if !commit(levels[vp.Choose("level", len(levels))]) {
 		return
 	}
-	if vp.Choose("gc", 2) == 1 {
+	switch vp.Choose("gc", 2+vp.Param("gcfault", 0)) {
+	case 1:
 		var err error
+		if vp.NoPanic("C13.nopanic", func() { err = t.DeleteNodes() }) {
+			return
+		}
+		vp.Assert("C13.gc-ok", err == nil)
+	case 2:
+		// the pass hits a storage error on its batch and is retried by the caller
+		db.FailBatches = 1
+		var err error
+		if vp.NoPanic("C13.nopanic", func() { err = t.DeleteNodes() }) {
+			return
+		}
+		if db.FailBatches == 0 {
+			vp.Assert("C13.gc-fault-reported", err != nil)
+			vp.Cover("C13.gc-fault")
+		}
+		db.FailBatches = 0
 		if vp.NoPanic("C13.nopanic", func() { err = t.DeleteNodes() }) {
 			return
 		}
@@ -146,6 +201,10 @@ func H_Rollback() {
 	var err error
 	if vp.NoPanic("C13.nopanic", func() { key, proof, err = r.GetBlockProof(b) }) {
 		return
+	}
+	if vp.Param("pregc", 0) == 1 {
+		vp.Known("C13.checkpoint-resolves", "two-keys-with-identical-value-and-weight", dup)
+		vp.Known("C13.checkpoint-resolves-after-gc", "two-keys-with-identical-value-and-weight", dup)
 	}
 	vp.Assert("C13.checkpoint-resolves", err == nil)
 	if err == nil {
